@@ -57,6 +57,7 @@ def per_weight(p: Poly | None) -> Poly | None:
 class Calc:
     def __init__(self, prog: Program, fn: FuncInfo) -> None:  # noqa: C901
         self.fn = fn
+        self.prog = prog
         body = list(fn.node.body)
         loops = [i for i, s in enumerate(body) if isinstance(s, ast.For)]
         if len(loops) != 1 or any(isinstance(n, (ast.For, ast.While, ast.AsyncFor)) and n is not body[loops[0]]
@@ -349,6 +350,21 @@ def check_form(run: Run, prog: Program) -> None:  # noqa: C901
               node=cap_fn.node, file=cap_fn.file)
 
 
+def register_helpers(run: Run, prog: Program, fn: FuncInfo, spliced: Any = (), used: Any = ()) -> None:
+    """The private helpers a rule read through (spliced by the normaliser / executed symbolically)."""
+    for q in used:
+        run.analysed(q)
+    for name in spliced or ():
+        h = prog.resolve_method(fn.cls, name) if fn.cls is not None else None
+        h = h or fn.module.functions.get(name)
+        if h is not None:
+            run.analysed(h.qual)
+
+
+def prog_of(calc: Calc) -> Program:
+    return calc.prog
+
+
 def result_of(calc: Calc, x: Leaf) -> tuple[Poly, Poly] | None:
     """(timestamp, value) of the Sample a path returns."""
     st = calc.sym.parts(x.value, "Sample")
@@ -365,6 +381,7 @@ def check_excl(run: Run, prog: Program) -> None:
 
 def check_excl_calc(run: Run, calc: Calc) -> None:
     fn, loop = calc.fn, calc.loop
+    register_helpers(run, prog_of(calc), fn, used=calc.sym.used)
     run.check(calc.iter_term == calc.wb, "C18.EXCL", fn.qual, f"for battery_id in {calc.wb}",
               f"the aggregation iterates `{u(loop.iter)}` instead of the working batteries: batteries "
               "that are not working are included", node=loop, file=fn.file)
@@ -425,6 +442,7 @@ def check_fetcher(run: Run, prog: Program) -> None:
     ff = prog.func(f"{FETCH}:LatestMetricsFetcher.fetch_next")
     run.analysed(ff.qual)
     node = inline_helpers(prog, ff)
+    register_helpers(run, prog, ff, spliced=getattr(node, "_spliced", ()))
     built = [c for c in find_calls(node, lambda c: u(c.func) == "ComponentMetricsData")]
     if not built:
         raise AnalysisError(f"{ff.qual}: no ComponentMetricsData is built")
@@ -634,6 +652,19 @@ class SetTerms:
             return self._op({ast.BitAnd: "intersection", ast.BitOr: "union", ast.Sub: "difference"}[type(e.op)], a, b)
         if isinstance(e, ast.Call) and u(e.func) in ("set", "frozenset") and len(e.args) == 1 and not e.keywords:
             return self.term(nid, e.args[0], depth)
+        if isinstance(e, (ast.SetComp, ast.GeneratorExp, ast.ListComp)) and len(e.generators) == 1:
+            # {x for x in A if x [not] in B}  is  A − B  /  A ∩ B
+            g = e.generators[0]
+            if isinstance(g.target, ast.Name) and u(e.elt) == g.target.id and len(g.ifs) == 1 and not g.is_async:
+                t = g.ifs[0]
+                neg = False
+                while isinstance(t, ast.UnaryOp) and isinstance(t.op, ast.Not):
+                    neg, t = not neg, t.operand
+                if isinstance(t, ast.Compare) and len(t.ops) == 1 and isinstance(t.ops[0], (ast.In, ast.NotIn)) \
+                        and u(t.left) == g.target.id:
+                    member = isinstance(t.ops[0], ast.In) != neg
+                    return self._op("intersection" if member else "difference",
+                                    self.term(nid, g.iter, depth), self.term(nid, t.comparators[0], depth))
         if isinstance(e, ast.Attribute):
             base = self.term(nid, e.value, depth)
             text = f"{base}.{e.attr}" if isinstance(base, str) else u(e)
@@ -679,6 +710,7 @@ def check_working_set(run: Run, prog: Program) -> None:  # noqa: C901
     ok_i = len(wr_i) == 1 and vals_i[0] is not None and st_i.term(wr_i[0], vals_i[0]) == want
     # ---- update
     unode = inline_helpers(prog, upd)
+    register_helpers(run, prog, upd, spliced=getattr(unode, "_spliced", ()))
     cfg = CFG(unode, upd.file)
     st = SetTerms(cfg, {upd.params[1]: "REPORTED", CALC: "CALC", WS: "WORKING"}, "WORKING")
     wr = _attr_writes(cfg, WS)
@@ -732,6 +764,15 @@ def check_working_set(run: Run, prog: Program) -> None:  # noqa: C901
                      and isinstance(n.iter, ast.Subscript) and u(n.iter.slice) == u(loop.target)
                      and is_state(n.iter.value, "self._bat_inv_map")]
             ok = pops(loop) and len(inner) == 1 and pops(inner[0])
+            if not ok:
+                # … or one loop over the battery and its inverters: for c in (b, *self._bat_inv_map[b])
+                both = [n for s_ in loop.body for n in walk_no_nested(s_) if isinstance(n, ast.For)
+                        and isinstance(n.iter, (ast.Tuple, ast.List))
+                        and any(u(x) == u(loop.target) for x in n.iter.elts)
+                        and any(isinstance(x, ast.Starred) and isinstance(x.value, ast.Subscript)
+                                and u(x.value.slice) == u(loop.target) and is_state(x.value.value, "self._bat_inv_map")
+                                for x in n.iter.elts)]
+                ok = len(both) == 1 and pops(both[0])
             run.check(ok, "C18.EXCL", upd.qual, "evict cached metrics of the stopped batteries and their inverters",
                       "cached metrics of batteries that stopped working are not evicted", node=upd.node, file=upd.file)
         # … and it is replaced on every path, except where it is known to be equal to the new set
